@@ -55,7 +55,7 @@ def interrupted(ctx):
     import detsched
     camp = engine_corr.EngineCampaign(ctx)
     rng = ctx.rng
-    for gi in range(ctx.n(12, 100)):
+    for gi in range(ctx.n(12, 100) if camp.usable else 0):
         fam, nodes, edges = engine_corr.gen_graph(rng, maxn=7)
         if len(nodes) < 2:
             continue
